@@ -66,11 +66,32 @@ def job_3d(job):
     return out
 
 
+def job_map(job):
+    from rnapolis.common import BasePair, LeontisWesthof, Residue, Saenger
+    from rnapolis.parser import read_3d_structure
+    from rnapolis.tertiary import Mapping2D3D
+    out = None
+    for rep in range(2):
+        with open(job["path"]) as f:
+            s3 = read_3d_structure(f, None)
+        R = s3.residues
+        bps = [BasePair(Residue(R[i].label, R[i].auth), Residue(R[j].label, R[j].auth), LeontisWesthof[lw], None if sa is None else Saenger[sa])
+               for i, j, lw, sa in job["pairs"]]
+        m = Mapping2D3D(s3, bps, [], job.get("find_gaps", False))
+        o = {"bpseq": str(m.bpseq), "dot_bracket": m.dot_bracket, "extended": m.extended_dot_bracket, "all_dot_brackets": "|".join(m.all_dot_brackets),
+             "elements": "|".join(str(x) for part in m.bpseq.elements for x in part)}
+        if rep == 0:
+            out = o
+        elif o != out:
+            out["in_process_repeat_differs"] = "yes"
+    return out
+
+
 def main():
     jobs = json.load(open(sys.argv[1]))
     for job in jobs:
         try:
-            r = job_2d(job) if job["type"] == "2d" else job_3d(job)
+            r = job_2d(job) if job["type"] == "2d" else (job_map(job) if job["type"] == "map" else job_3d(job))
         except Exception as e:  # noqa: BLE001
             r = {"error": f"{type(e).__name__}: {e}"}
         print(json.dumps({"id": job["id"], "out": r}), flush=True)
